@@ -200,12 +200,12 @@ ADDED4 = {
  "C01": "Round 8: subqueries allowed at every depth; nothing read after the keyword lookup; every call argument offered to parseRegex first.",
  "C02": "Round 8: format strings are constants.",
  "C03": "Round 8: format strings are constants (a group's text is never the format); nothing read after the keyword lookup.",
- "C04": "Round 8: a Visit method does not walk a child itself and then return a visitor (exponential traversal).",
+ "C04": "Round 8: a Visit method does not walk a child itself and then return a visitor (exponential traversal); the String method of a pointer that Walk may hand on as nil guards its receiver.",
  "C06": "Round 8: a quoted identifier the string scanner accepted is an IDENT; Scanner methods store nothing into the Scanner.",
  "C09": "Round 8: Reduce writes nothing into the tree it is given (C14.readonly imported).",
  "C10": "Round 8: conditionExpr returns no BooleanLiteral of its own making.",
  "C12": "Round 8: the clone RewriteFields works on carries every field (C14.fields imported); no write into a map handed back by an interface call.",
- "C13": "Round 8: no write into a map handed back by an interface call (it may be nil).",
+ "C13": "Round 8: no write into a map handed back by an interface call (it may be nil); the String method of a pointer that Walk may hand on as nil guards its receiver.",
  "C14": "Round 8: a pattern is recompiled from its own source, never from the literal's printed form.",
  "C15": "Round 8: no greedy any-character run in front of the password capture.",
  "C16": "Round 8: only reader.read touches the underlying input (C05.rawread imported).",
